@@ -34,6 +34,15 @@ CHECKS = {
          "Coq model for all shapes <= 6x6x3 (quick) / 8x8x4 + random up to 40x40x6 (thorough), plus an independent geometric oracle.",
     ref="6 C09", technique="Rocq proof (lia/nia, mixed-radix uniqueness) + exhaustive-small correspondence by vm_compute",
     note=TB % "c09" + "np.diag/csr semantics modelled by `sym`; closed-form pattern predicates instead of the slice assignments."),
+ "C12": dict(
+    cat="proof",
+    text="Theorem by induction over the steps of the run model (props/C12.v): for every vial the recorded nucleation time is (j+1)dt for the first "
+         "column j+1 containing ice, the recorded nucleation temperature is the supercooled temperature of step j (< T_eq_l), the solidification "
+         "time is t_m - t_nuc for the first column m above the threshold (absent iff none), times on the grid, t_sol only for nucleated vials and >= 0. "
+         "Hypotheses (once iced stays iced; a jump creates ice) are evaluated per run. Whole-run statistics of the binary64 model are compared with "
+         "Snowflake.stats; a direct oracle checks every vial's statistics, the fromStates accessors and the counters against the stored trajectory.",
+    ref="6 C12", technique="Rocq proof (invariant by induction over steps, per-vial trace extracted from the batch run) + whole-run float correspondence + trajectory oracle",
+    note=TB % "c12" + "fromStates accessors and sigmaCounter are checked by the oracle only (three known findings); query times are grid times; a query beyond the simulated grid is outside the property."),
  "C16": dict(
     cat="proof",
     text="Theorems for every batch with nx,ny >= 2 (flat or pallet), both arrangements (props/C16.v, axiom-free): every vial's exposure "
